@@ -114,7 +114,39 @@ def _variants(b, bp, mi, tree, rng, cls):
     yield "nested-unknown", with_nested_unknown
 
 
+def check_negzero(b, mi, res: Result, w):
+    """-0.0 equals the default 0.0 but has other bytes: whatever dump decides for it, len must agree"""
+    from ..values import attr_names
+
+    cls = b.bp_class(mi.full_name)
+    names = attr_names(cls)
+    for fi in mi.fields:
+        inner = fi.map_value if fi.label == "map" else fi
+        if inner.wkt is not None and not inner.wkt.startswith("wrapper:"):
+            continue
+        k = inner.wkt.split(":")[1] if inner.wkt else inner.kind
+        if k not in ("float", "double"):
+            continue
+        v = [-0.0, 1.5, -0.0] if fi.label == "repeated" else ({("k" if fi.map_key.kind == "string" else (True if fi.map_key.kind == "bool" else 1)): -0.0} if fi.label == "map" else -0.0)
+        for how in ("ctor", "attr"):
+            try:
+                if how == "ctor":
+                    m = cls(**{names[fi.number]: v})
+                else:
+                    m = cls()
+                    setattr(m, names[fi.number], v)
+            except Exception:
+                continue
+            res.note("len_checked")
+            res.note("negzero_checked")
+            for kind, detail in _observe(m):
+                res.violation(kind.split("-raised")[0], [fi.cls_key(), "negative-zero", kind], f"{mi.full_name}.{fi.name} = -0.0 [{how}]: {detail}",
+                              dict(w, negzero=fi.number))
+
+
 def check_case(b, bp, ref, mi, tree, res: Result, w, rng):
+    if w.get("tag") == "empty" or w.get("negzero"):
+        check_negzero(b, mi, res, w)
     cls = b.bp_class(mi.full_name)
     for vname, mk in _variants(b, bp, mi, tree, rng, cls):
         st = rng.getstate()
